@@ -5274,7 +5274,7 @@ func (s *BgpServer) watch(opts ...WatchOption) (*watcher, error) {
 
 		if w.opts.initBest && s.active() == nil {
 			w.notify(&watchEventBestPath{
-				PathList:      s.globalRib.GetBestPathList(table.GLOBAL_RIB_NAME, 0, nil),
+				PathList:      clonePathList(s.globalRib.GetBestPathList(table.GLOBAL_RIB_NAME, 0, nil)),
 				MultiPathList: s.globalRib.GetBestMultiPathList(table.GLOBAL_RIB_NAME, nil),
 				Timestamp:     time.Now(),
 			})
@@ -5328,7 +5328,9 @@ func (s *BgpServer) watch(opts ...WatchOption) (*watcher, error) {
 						Init:         true,
 						PostPolicy:   false,
 						Neighbor:     configNeighbor,
-						PathList:     peer.adjRibIn.PathList([]bgp.Family{rf}, false),
+						// clones, like the live notifications: the watcher reads
+						// them while the originals are re-used by soft resets
+						PathList: clonePathList(peer.adjRibIn.PathList([]bgp.Family{rf}, false)),
 					}
 					w.notify(update)
 
@@ -5360,7 +5362,7 @@ func (s *BgpServer) watch(opts ...WatchOption) (*watcher, error) {
 				}
 				pathsByPeer := make(map[*table.PeerInfo][]*table.Path)
 				for _, path := range s.globalRib.GetPathList(table.GLOBAL_RIB_NAME, 0, []bgp.Family{rf}) {
-					pathsByPeer[path.GetSource()] = append(pathsByPeer[path.GetSource()], path)
+					pathsByPeer[path.GetSource()] = append(pathsByPeer[path.GetSource()], path.Clone(path.IsWithdraw))
 				}
 				for peerInfo, paths := range pathsByPeer {
 					// create copy which can be access to without mutex
